@@ -1393,17 +1393,24 @@ package gtab
 //@   ensures next >= -1 && next <= len(ctx.seq) && stackinv(ctx) && len(ctx.seq) == old(len(ctx.seq)) && len(ctx.stack) == old(len(ctx.stack))
 //@   ensures next != -1 ==> next == a + 1 && old(has(l.Input, ctx.seq[a].GID)) && ctx.seq[a].GID == l.SubstituteGlyphIDs[l.Input[old(ctx.seq[a].GID)]]
 //@   ensures forall i int :: 0 <= i && i < len(ctx.seq) && (i != a || next == -1) ==> ctx.seq[i].GID == old(ctx.seq[i].GID)
+// reverse chaining rule without a glyph filter: the glyph is substituted exactly if it is covered, the backtrack coverages contain the glyphs before a (in reverse order) and the lookahead coverages the glyphs after a, up to the end of the whole sequence
+//@   ensures old(ctx.keep == nil) ==> ((next >= 0) == old(has(l.Input, ctx.seq[a].GID) && (a - len(l.Backtrack) >= 0 && forall i5 int :: 0 <= i5 && i5 < len(l.Backtrack) ==> has(l.Backtrack[i5], ctx.seq[a-1-i5].GID)) && (a + 1 + len(l.Lookahead) <= len(ctx.seq) && forall i7 int :: 0 <= i7 && i7 < len(l.Lookahead) ==> has(l.Lookahead[i7], ctx.seq[a+1+i7].GID))))
+//@   let NK = ctx.keep == nil && keep == nil
 //@   modifies ctx.seq[*]
 //@   let L = len(ctx.seq) == old(len(ctx.seq)) && ref(seq) == ref(ctx.seq) && off(seq) == off(ctx.seq) && len(seq) == len(ctx.seq) && b <= len(seq) && keep == ctx.keep && stackinv(ctx) && inside(ctx, b) && len(ctx.stack) == old(len(ctx.stack))
 //@   let SAME = forall i int :: 0 <= i && i < len(ctx.seq) ==> ctx.seq[i].GID == old(ctx.seq[i].GID)
 //@   loop 0
+//@     invariant NK ==> p == a - iter && forall i5 int :: 0 <= i5 && i5 < iter ==> has(l.Backtrack[i5], seq[a-1-i5].GID)
 //@     invariant L && SAME && 0 <= p && p <= a && glyphsNeeded >= 0 && glyphsNeeded == len(l.Backtrack) - iter
 //@   loop 1
+//@     invariant NK ==> p == a - 1 - outerindex
 //@     invariant L && SAME && -1 <= p && p < a && glyphsNeeded >= 0
 //@     decreases p + 1
 //@   loop 2
+//@     invariant NK ==> p == a + iter && (a - len(l.Backtrack) >= 0 && forall i5 int :: 0 <= i5 && i5 < len(l.Backtrack) ==> has(l.Backtrack[i5], seq[a-1-i5].GID)) && forall i7 int :: 0 <= i7 && i7 < iter ==> has(l.Lookahead[i7], seq[a+1+i7].GID)
 //@     invariant L && SAME && a <= p && p < len(seq) && glyphsNeeded >= 0 && glyphsNeeded == len(l.Lookahead) - iter
 //@   loop 3
+//@     invariant NK ==> p == a + 1 + outerindex
 //@     invariant L && SAME && a < p && p <= len(seq) && glyphsNeeded >= 0
 //@     decreases len(seq) - p
 
